@@ -143,10 +143,27 @@ func main() {
 			for i, f := range files {
 				full := names[i]
 				b := src[full]
+				relFile, _ := filepath.Rel(*repo, full)
 				var edits []edit
 				n := 0
+				siteSeen := map[string]int{}
+				funcOf := func(p token.Pos) string {
+					for _, d := range f.Decls {
+						if fd, ok := d.(*ast.FuncDecl); ok && fd.Pos() <= p && p <= fd.End() {
+							return fd.Name.Name
+						}
+					}
+					return "init"
+				}
+				siteID := func(p token.Pos, expr string) string {
+					base := fmt.Sprintf("%s:%s:%s", filepath.Base(relFile), funcOf(p), expr)
+					siteSeen[base]++
+					if siteSeen[base] > 1 {
+						return fmt.Sprintf("%s#%d", base, siteSeen[base])
+					}
+					return base
+				}
 				usesTime := false
-				relFile, _ := filepath.Rel(*repo, full)
 				ast.Inspect(f, func(nd ast.Node) bool {
 					switch x := nd.(type) {
 					case *ast.LabeledStmt:
@@ -171,8 +188,8 @@ func main() {
 						}
 						n++
 						pos := fset.Position(x.Pos())
-						id := fmt.Sprintf("%s:%d", filepath.ToSlash(relFile), pos.Line)
 						xs := string(b[fset.Position(x.X.Pos()).Offset:fset.Position(x.X.End()).Offset])
+						id := siteID(x.Pos(), "range "+xs)
 						sites = append(sites, site{ID: id, Kind: "range-map", File: filepath.ToSlash(relFile), Line: pos.Line, Expr: xs})
 						mv := fmt.Sprintf("verifM%d", n)
 						kv := fmt.Sprintf("verifK%d", n)
@@ -218,7 +235,7 @@ func main() {
 						}
 						if pn, ok := info.Uses[pk].(*types.PkgName); ok && pn.Imported().Path() == "time" {
 							pos := fset.Position(x.Pos())
-							id := fmt.Sprintf("%s:%d", filepath.ToSlash(relFile), pos.Line)
+							id := siteID(x.Pos(), "time.Now()")
 							sites = append(sites, site{ID: id, Kind: "time.Now", File: filepath.ToSlash(relFile), Line: pos.Line, Expr: "time.Now()"})
 							edits = append(edits, edit{pos.Offset, fset.Position(x.End()).Offset, fmt.Sprintf("verifseam.Now(%q)", id)})
 							usesTime = true
